@@ -172,7 +172,7 @@ pub fn run(part: &mut Part) {
                         s
                     },
                     a_full(),
-                    if q { 1 } else { 2 },
+                    if q { 2 } else { 3 },
                 )]
             };
             let mon = Monitors {
@@ -337,7 +337,7 @@ pub fn run(part: &mut Part) {
                 let mut s = vec![seed_empty()];
                 s.extend(structural_seeds());
                 s.extend(cursor_seeds(&[3], &[0, 7]));
-                vec![prof("empty+structural+file-end x A_full", s, a_full(), if q { 1 } else { 2 })]
+                vec![prof("empty+structural+file-end x A_full", s, a_full(), if q { 2 } else { 3 })]
             };
             let mons = vec![
                 Monitors { property: "C13", c13: true, policy: Some(PolicyCfg::Default), ..Default::default() },
@@ -383,7 +383,7 @@ pub fn run(part: &mut Part) {
             } else {
                 let mut s = vec![seed_empty(), seed_big_buffer(QA)];
                 s.extend(structural_seeds());
-                vec![prof("empty+structural+big-buffer x A_full", s, a_full(), if q { 1 } else { 2 }),
+                vec![prof("empty+structural+big-buffer x A_full", s, a_full(), if q { 2 } else { 3 }),
                     prof("long queues of 400-600 byte records x A_full", vec![seed_hoarder_big(70), seed_hoarder_big(140)], a_full(), if q { 2 } else { 3 })]
             };
             let mon = Monitors { property: "C16", c16: true, ..Default::default() };
@@ -576,7 +576,7 @@ pub fn run(part: &mut Part) {
             } else {
                 let mut s = vec![seed_empty()];
                 s.extend(seeds);
-                vec![prof("empty+seeds x (A_roll+Persist)", s, alpha, if q { 1 } else { 2 })]
+                vec![prof("empty+seeds x (A_roll+Persist)", s, alpha, if q { 2 } else { 3 })]
             };
             let descr: Vec<_> = profiles.iter().map(|p| p.describe()).collect();
             let stats = explore(&profiles, part.seed, |env, leaf| c14_leaf(env, leaf));
